@@ -255,7 +255,21 @@ pub fn readcmp_main(a: &Args) {
                 }
                 let folded = Expect { dump: blank_fold(&rec["expected"]), carried: Default::default() };
                 let dump_folded = blank_fold(&dump);
-                if fmt == "xml" && canon::with_nan_class(nan, || expect::compare(&folded, &dump_folded, false)).is_none() {
+                // The listed finding is about whitespace-only EVENTS: a whole value of blanks, or a blank piece next to a
+                // CDATA section, comment or character reference. It must not swallow anything else: hand-written documents
+                // are exempt, and in a document without such markup only "all blanks in, empty out" qualifies.
+                let has_tag = |t: &str| rec["tags"].as_array().map(|a| a.iter().any(|x| x == t)).unwrap_or(false);
+                let pieces_possible = has_tag("cdata") || has_tag("comments") || has_tag("charrefs");
+                let as_text = |j: &str| -> Option<String> {
+                    match serde_json::from_str::<J>(j) {
+                        Ok(J::String(t)) => Some(t),
+                        Ok(J::Object(o)) => o.get("v").and_then(|v| v.as_str()).map(|t| t.to_owned()),
+                        _ => None,
+                    }
+                };
+                let whole_blank = as_text(&m.actual).map(|t| t.is_empty()).unwrap_or(false) && as_text(&m.expected).map(|t| !t.is_empty() && t.chars().all(|c| c.is_whitespace())).unwrap_or(false);
+                let may_be_known = !has_tag("fixed-document") && (pieces_possible || whole_blank);
+                if fmt == "xml" && may_be_known && canon::with_nan_class(nan, || expect::compare(&folded, &dump_folded, false)).is_none() {
                     rep.violation(
                         &format!("{}:reader:whitespace-only-text", prop),
                         &format!("a whitespace-only run of element text was dropped at {} ({}.{}): expected {} got {}", m.path, m.class, m.prop, m.expected, m.actual),
